@@ -18,6 +18,29 @@ fn hash_of<T: Hash>(t: &T) -> u64 {
     h.finish()
 }
 
+/// every formatter option a caller can put into a format string: width, precision, alignment, fill, alternate;
+/// widths and precisions around the character count and the byte count of the plain rendering
+fn fmt_variants<T: std::fmt::Display + std::fmt::Debug>(what: &'static str, t: &T, plain: &str, full: bool) -> Result<(), Fail> {
+    let chars = plain.chars().count();
+    let bytes = plain.len();
+    let mut sizes = if full { vec![0usize, chars.saturating_sub(1), chars + 1, bytes.saturating_sub(1), bytes + 1, 40] } else { vec![chars + 1, bytes.saturating_sub(1)] };
+    sizes.sort();
+    sizes.dedup();
+    for w in &sizes {
+        let w = *w;
+        let out = lib(what, || (format!("{:w$}", t), format!("{:>w$}", t), format!("{:*^w$}", t), format!("{:<w$.w$}", t)))?;
+        // padding never loses text: the plain rendering is contained in the padded one
+        ensure!(out.0.contains(plain) && out.1.contains(plain) && out.2.contains(plain), "c12:fmt-width", "{} with width {} loses text: {:?} / {:?}", what, w, out.0, plain);
+        if full {
+            lib(what, || (format!("{:w$?}", t), format!("{:#w$?}", t), format!("{:>w$.w$?}", t), format!("{:.w$}", t)))?;
+        }
+    }
+    if full {
+        lib(what, || (format!("{:#}", t), format!("{:#?}", t), format!("{:08}", t), format!("{:+}", t)))?;
+    }
+    Ok(())
+}
+
 fn inspect_label(l: &Label, hostile: &mut bool) -> Result<(), Fail> {
     let bytes = l.verif_bytes().to_vec();
     if bytes.iter().any(|b| !(0x20..0x7f).contains(b)) {
@@ -25,6 +48,7 @@ fn inspect_label(l: &Label, hostile: &mut bool) -> Result<(), Fail> {
     }
     let shown = lib("Label::to_string", || l.to_string())?;
     lib("Label::fmt(Debug)", || format!("{:?}", l))?;
+    fmt_variants("Label::fmt with width / precision / alignment", l, &shown, false)?;
     if let Ok(s) = std::str::from_utf8(&bytes) {
         ensure!(shown == s, "c12:label-display", "label {:?} displays as {:?}", s, shown);
     }
@@ -43,6 +67,7 @@ fn inspect_name(n: &Name, others: &[&Name], hostile: &mut bool) -> Result<(), Fa
     }
     let shown = lib("Name::to_string", || n.to_string())?;
     lib("Name::fmt(Debug)", || format!("{:?}", n))?;
+    fmt_variants("Name::fmt with width / precision / alignment", n, &shown, true)?;
     let labels: Vec<Vec<u8>> = n.get_labels().iter().map(|l| l.verif_bytes().to_vec()).collect();
     if labels.iter().all(|l| std::str::from_utf8(l).is_ok()) {
         let want = labels.iter().map(|l| String::from_utf8(l.clone()).unwrap()).collect::<Vec<_>>().join(".");
@@ -70,6 +95,7 @@ fn inspect_cs(c: &CharacterString, hostile: &mut bool) -> Result<(), Fail> {
     }
     let shown = lib("CharacterString::to_string", || c.to_string())?;
     lib("CharacterString::fmt(Debug)", || format!("{:?}", c))?;
+    fmt_variants("CharacterString::fmt with width / precision / alignment", c, &shown, true)?;
     if let Ok(s) = std::str::from_utf8(&bytes) {
         ensure!(shown == s, "c12:charstr-display", "character string {:?} displays as {:?}", s, shown);
     }
@@ -128,7 +154,7 @@ fn strings_of<'a, 'b>(rd: &'b RData<'a>) -> Vec<&'b CharacterString<'a>> {
 const QTYPES: [QTYPE; 8] = [QTYPE::ANY, QTYPE::IXFR, QTYPE::AXFR, QTYPE::MAILB, QTYPE::MAILA, QTYPE::TYPE(TYPE::A), QTYPE::TYPE(TYPE::TXT), QTYPE::TYPE(TYPE::Unknown(999))];
 
 fn inspect_record(r: &ResourceRecord, questions: &[Question], all_names: &[&Name], hostile: &mut bool) -> Result<(), Fail> {
-    lib("ResourceRecord::fmt(Debug)", || format!("{:?}", r))?;
+    lib("ResourceRecord::fmt(Debug)", || (format!("{:?}", r), format!("{:#?}", r), format!("{:30.10?}", r)))?;
     let c = lib("ResourceRecord::clone", || r.clone())?;
     ensure!(lib("ResourceRecord::eq", || c == *r)?, "c12:record-clone-ne", "record differs from its clone");
     let o = lib("ResourceRecord::into_owned", || r.clone().into_owned())?;
@@ -189,7 +215,7 @@ fn inspect_record(r: &ResourceRecord, questions: &[Question], all_names: &[&Name
 
 /// apply every public observer to every part of a parsed packet
 pub fn inspect(p: &Packet, hostile: &mut bool) -> Result<(), Fail> {
-    lib("Packet::fmt(Debug)", || format!("{:?}", p))?;
+    lib("Packet::fmt(Debug)", || (format!("{:?}", p), format!("{:#?}", p), format!("{:60?}", p)))?;
     let c = lib("Packet::clone", || p.clone())?;
     lib("Packet::accessors", || (c.id(), c.rcode(), c.opcode(), c.opt().map(|o| o.opt_codes.len()), c.has_flags(simple_dns::PacketFlag::RESPONSE)))?;
     lib("Packet::into_reply", || p.clone().into_reply().id())?;
